@@ -2,6 +2,8 @@
 
 from __future__ import annotations
 
+from ..vloop import texc
+
 import collections
 from typing import Any
 
@@ -50,7 +52,7 @@ class SessionWorld(World):
         self.task = self.spawn(self.session.connect(), name="harness-connect")
         if connect:
             self.loop.settle()
-            assert self.task.done() and self.task.exception() is None, self.task
+            assert self.task.done() and texc(self.task) is None, self.task
 
     def frame_for(self, kind: str, seq: int, n: int) -> bytes:
         srv = self.srv
@@ -204,7 +206,7 @@ def make_send(steps: int):
                                   device_authentication_password="trustme", auto_reconnect=True, auto_reconnect_wait=3)
             t0 = w.spawn(tunnel.connect(), name="harness-connect")
             loop.settle()
-            if not (t0.done() and t0.exception() is None):
+            if not (t0.done() and texc(t0) is None):
                 return [("harness:connect-failed", repr(t0))]
             sends = 0
             done = False
